@@ -30,6 +30,10 @@ def handle (op : String) (j : Json) : Option (R Json) :=
       | "smear" =>
           let s ← getFloat j "extent"; let a ← getFloat j "angle"
           pure (okJ [("out", realArrToJson (Lentil.smear CF img s a ps os))])
+      | "smear_none" =>
+          -- angle=None: the harness passes the uniform [0, 1) variate the seeded global generator yields
+          let s ← getFloat j "extent"; let u ← getFloat j "u"
+          pure (okJ [("out", realArrToJson (Lentil.smearNone CF img s ps os u))])
       | _ => throw "bad kind"
   | _ => none
 
